@@ -1735,6 +1735,10 @@ func wirePadSpellings(w *World, wc *wireCtx, r *Report) {
 									recognised[s] = true
 								}
 							}
+							// ... or as a list member of a package-level record (var nul = nulPadChar{spellings: []string{...}})
+							for _, s := range listConstsOfGlobal(a) {
+								recognised[s] = true
+							}
 						}
 					}
 				case *ssa.Lookup:
@@ -1802,4 +1806,48 @@ func wireRawType(w *World, r *Report, prop, field string) {
 	} else {
 		r.pass(rule, field+" is read only by model.GetType", "internal/model/model.go", fmt.Sprintf("%d reads", n))
 	}
+}
+
+// listConstsOfGlobal: v is (a load of) a package-level variable: the string constants of the list literals its initialiser stores
+// into it or into its members.
+func listConstsOfGlobal(v ssa.Value) []string {
+	v = stripIdentity(v)
+	if ld, ok := v.(*ssa.UnOp); ok && ld.Op == token.MUL {
+		v = ld.X
+	}
+	g, ok := v.(*ssa.Global)
+	if !ok || g.Pkg == nil {
+		return nil
+	}
+	initFn := g.Pkg.Func("init")
+	if initFn == nil {
+		return nil
+	}
+	var out []string
+	// the literal may be built in a local of the initialiser and copied into the variable
+	roots := map[ssa.Value]bool{g: true}
+	forEachInstr(initFn, func(_ *ssa.BasicBlock, ins ssa.Instruction) {
+		if st, ok := ins.(*ssa.Store); ok && st.Addr == ssa.Value(g) {
+			if ld, ok := stripIdentity(st.Val).(*ssa.UnOp); ok && ld.Op == token.MUL {
+				if al, ok := ld.X.(*ssa.Alloc); ok {
+					roots[al] = true
+				}
+			}
+		}
+	})
+	forEachInstr(initFn, func(_ *ssa.BasicBlock, ins ssa.Instruction) {
+		st, ok := ins.(*ssa.Store)
+		if !ok || !roots[valueRoot(st.Addr)] {
+			return
+		}
+		for _, e := range variadicOperands(stripIdentity(st.Val)) {
+			if e == nil {
+				continue
+			}
+			if s, ok := constString(e); ok {
+				out = append(out, s)
+			}
+		}
+	})
+	return out
 }
